@@ -246,7 +246,7 @@ def _pspecs():
                           "modelled, not verified: serde_json parses and prints JSON values faithfully (numbers are whatever serde_json::Value holds; precision beyond f64 not modelled); clap parses the flags"],
             assumptions=FS_ASSUME + ["'preserves every other key and value' is read on JSON values (serde_json without preserve_order sorts keys on write)",
                                      "effective settings are observed from outside: which project's command appears, where files land, the Generator line of types.ts, verbose output, whether an identical second invocation rewrites"],
-            rule="function-level: random JSON documents (nested objects/arrays, Unicode and escaped strings, i64/u64 extremes, decimals; plugins absent / object / with typegen / non-object; non-object documents) x 6 settings values x existing / missing project path  [the document in each of the three places the tool looks in: working directory, ./src-tauri, parent directory]  [path values with backslashes, `~`, `$HOME`, `%VAR%`, `..`, blanks, URL form: stored and read back as written] "
+            rule="function-level: random JSON documents (nested objects/arrays, Unicode and escaped strings, i64/u64 extremes, decimals; plugins absent / object / with typegen / non-object; non-object documents) x 6 settings values x existing / missing project path  [the document in each of the three places the tool looks in: working directory, ./src-tauri, parent directory]  [path values with backslashes, `~`, `$HOME`, `%VAR%`, `..`, blanks, URL form: stored and read back as written; every arrangement of {no file, not JSON, no typegen entry, block A, block B} over the three places the tool looks in x 3 flag sets against the discovery model] "
                  "through the real save_to_tauri_config and from_tauri_config; process-level: all 32 subsets of {-p,-o,-v,--verbose,--force} x 7 file blocks (absent, valid, valid+verbose+force, unsupported library, missing project path, partial, empty) "
                  "(quick: a third of the masks only with the 3 most informative blocks), init x {none,zod,yup,Zod} x 5 plugins values; non-trivial = all; distinct = input",
             exhaustive={"quick": False, "thorough": True},
